@@ -99,6 +99,7 @@ def showRes (d : DSt) (th : Thread) (r : Res) : String :=
   | .read .size (some k), .present => s!"size:{d.sz k}"
   | .read _ (some k), .present => s!"found:{d.sz k}"
   | .read _ _, .absent => "notfound"
+  | .del _, .absent => "ok"
   | _, .ok => "ok"
   | _, .err => "err"
   | _, _ => "?"
